@@ -20,6 +20,9 @@ pub enum Op {
         /// serial payloads only: the line is `REM <serial>` instead of `PRINT <serial>`
         #[serde(default)]
         rem: bool,
+        /// serial payloads only: the line is `STOP` (a RUN reaching it leaves the program suspended)
+        #[serde(default)]
+        stop: bool,
     },
     /// A bare number: deletes the line.
     Delete { num: u64, zeros: u8, blanks: u8, trailing: u8 },
@@ -59,7 +62,7 @@ fn op(with_stmts: bool) -> impl Strategy<Value = Op> {
         Just(None).boxed()
     };
     prop_oneof![
-        10 => (num(), 0u8..3, 0u8..3, 0u8..3, payload, prop::bool::weighted(0.25)).prop_map(|(num, zeros, blanks, gap, payload, rem)| Op::Enter { num, zeros, blanks, gap, payload, rem }),
+        10 => (num(), 0u8..3, 0u8..3, 0u8..3, payload, prop::bool::weighted(0.25), prop::bool::weighted(0.08)).prop_map(|(num, zeros, blanks, gap, payload, rem, stop)| Op::Enter { num, zeros, blanks, gap, payload, rem, stop }),
         4 => (num(), 0u8..3, 0u8..3, 0u8..3).prop_map(|(num, zeros, blanks, trailing)| Op::Delete { num, zeros, blanks, trailing }),
         3 => (num(), 0u8..3, 0u8..(BAD.len() as u8)).prop_map(|(num, zeros, kind)| Op::Fail { num, zeros, kind }),
         1 => (0u8..(HUGE.len() as u8)).prop_map(Op::Huge),
@@ -86,8 +89,9 @@ pub fn check(h: &Hist, rec: &mut CaseRec) -> Verdict {
     let serial_only = h.ops.iter().all(|o| !matches!(o, Op::Enter { payload: Some(_), .. }));
     for (i, o) in h.ops.iter().enumerate() {
         match o {
-            Op::Enter { num, zeros, blanks, gap, payload, rem } => {
+            Op::Enter { num, zeros, blanks, gap, payload, rem, stop } => {
                 let (serial, stmt) = match payload {
+                    None if *stop && serial_only => (Some(i as u64), "STOP".to_string()),
                     None if *rem && serial_only => (Some(i as u64), format!("REM {}", i)),
                     None => (Some(i as u64), format!("PRINT {}", i)),
                     Some(t) => (None, t.clone()),
@@ -241,8 +245,8 @@ fn compare_run(s: &mut Sess, map: &BTreeMap<u64, (Option<u64>, String)>, serial_
         }
     };
     if serial_only {
-        // comment lines print nothing
-        let want: String = map.values().filter(|(_, text)| !text.starts_with("REM")).map(|(k, _)| format!("{}\n", k.unwrap())).collect();
+        // comment lines print nothing; the run ends at the first STOP
+        let want: String = map.values().take_while(|(_, text)| text != "STOP").filter(|(_, text)| !text.starts_with("REM")).map(|(k, _)| format!("{}\n", k.unwrap())).collect();
         let got = printed(&out);
         if got != want || tail != "Idle" {
             return Some(Verdict::fail("run-differs-from-map", format!("lines {:?}: want {:?} got {:?} / {}", map.keys().collect::<Vec<_>>(), want, got, tail)));
@@ -271,7 +275,7 @@ pub fn property() -> Property {
     ];
     Property {
         id: "C04",
-        rule: "Histories of 1-80 operations over {enter/replace a line, delete by bare number (existing or not), failed edit (unterminated string, illegal character, bad numeral, multi-byte), 20+-digit pseudo line numbers, LIST, RUN}; line numbers from {0..11} (forcing collisions), {0, 1, 9, 10, 2^32, 2^63, 2^64-2, 2^64-1} and random u64, spelled with leading zeros / leading blanks / with or without a blank before the statement. serial-payloads: each entered line is `PRINT <serial>` or, one time in four, `REM <serial>` (a line that must be listed but prints nothing); oracle = BTreeMap updated by the stated rules, LIST must equal its rendering and RUN must print the serials in key order (independent of the tokenizer). statement-payloads: arbitrary generated statements; LIST and RUN must equal those of a fresh interpreter into which the map's surviving lines are typed once in ascending order. LIST and RUN are checked wherever they occur and at the end. Non-trivial: >= 1 replace, >= 1 delete of an existing line, >= 1 failed edit and >= 3 surviving lines; distinct by op-kind sequence + surviving numbers.",
+        rule: "Histories of 1-80 operations over {enter/replace a line, delete by bare number (existing or not), failed edit (unterminated string, illegal character, bad numeral, multi-byte), 20+-digit pseudo line numbers, LIST, RUN}; line numbers from {0..11} (forcing collisions), {0, 1, 9, 10, 2^32, 2^63, 2^64-2, 2^64-1} and random u64, spelled with leading zeros / leading blanks / with or without a blank before the statement. serial-payloads: each entered line is `PRINT <serial>` or, one time in four, `REM <serial>` (a line that must be listed but prints nothing), one in twelve `STOP` (RUN ends there and leaves the program suspended while the next edits arrive); oracle = BTreeMap updated by the stated rules, LIST must equal its rendering and RUN must print the serials in key order (independent of the tokenizer). statement-payloads: arbitrary generated statements; LIST and RUN must equal those of a fresh interpreter into which the map's surviving lines are typed once in ascending order. LIST and RUN are checked wherever they occur and at the end. Non-trivial: >= 1 replace, >= 1 delete of an existing line, >= 1 failed edit and >= 3 surviving lines; distinct by op-kind sequence + surviving numbers.",
         assumptions: vec!["RUN transcripts are compared under a 2000-turn budget"],
         fuzz: Some(FuzzSpec { target: "c04_edits", runs: 100_000, max_len: 400, verdict: crate::fuzz::c04_verdict }),
         families,
